@@ -23,6 +23,8 @@ GOLDEN_DIR = os.path.join(CONTRACTS, 'golden')
 OUT = os.environ.get('VERIF_OUT', VERIF)
 BUILD = os.path.join(OUT, 'build', str(os.getpid()))
 REPO = os.environ.get('VERIF_REPO', '/repo')
+# names of new helper functions to inline (rule R33), set by check.py for one run
+INLINE = set()
 
 
 class WeaveError(Exception):
@@ -74,7 +76,12 @@ class Region:
             src = open(p).read()
         except OSError as e:
             raise extract.ExtractError('cannot read %s: %s' % (p, e))
-        return extract.extract_region(src, self.path, self.opts)
+        opts = self.opts
+        if INLINE:
+            # rule R33 (check.py asks for it after the front end reported unknown functions): only names that the golden
+            # extraction of this unit does not define are ever inlined
+            opts = dict(self.opts, inline=sorted(INLINE))
+        return extract.extract_region(src, self.path, opts)
 
 
 def expand_includes(path, seen=None):
